@@ -20,6 +20,12 @@ def variant_names(prog, adt_pretty):
     return None
 
 
+def strip_upd(v):
+    while isinstance(v, tuple) and v[0] == "upd":
+        v = v[1]
+    return v
+
+
 def run(env, rep):
     prog = env.prog
     rep.explanation = (
@@ -61,14 +67,14 @@ def run(env, rep):
     dec_of = {}
     default = None
     alias_paths = {}
-    for p in grammar.reads(env, trm.key, all_local_calls=True).paths:
+    for p in grammar.reads(env, trm.key, all_local_calls=True, inline=True).paths:
         s = sig(p)
         tid = None
         target = None
         for t in s:
             if t[0] == "when" and "type_id" in t[1] and not t[1].startswith("("):
                 tid = t[2]
-            if t[0] == "call" and target is None:
+            if t[0] == "call" and target is None and "::types::" in t[1]:
                 target = t
             if t[0] == "returns" and target is None and not t[1].startswith("call("):
                 target = t
@@ -329,6 +335,24 @@ def run(env, rep):
                         order = [grammar.render_value(prog, x) for x in base[2][3]]
         want_order = ["Amf0Value::Utf8String(load(command_name))", "Amf0Value::Number(load(transaction_id))", "load(command_object)"]
         appends = [callee_name(t) for _, t in eb.calls() if callee_name(t) == "alloc::vec::Vec::append"]
+        # the same list assembled item by item: what is handed to the AMF0 encoder, as a sequence of items
+        from ..models import items_of, value_items
+        from ..interp import stable
+        seqs = set()
+        for bi, t in eb.calls():
+            cp = t["callee"].get("pretty") or ""
+            if cp.endswith("serialization::serialize") or cp.endswith("rml_amf0::serialize") or cp == "serialize" or cp.endswith("::serialize") and "amf0" in (t["callee"].get("path") or ""):
+                S, args = args_at(env.ctx, eb.key, bi)
+                if S is None or not args:
+                    continue
+                loc = it.target(args[0])
+                items = items_of(S, loc) or value_items(S.read(loc))
+                if items is not None:
+                    seqs.add(tuple(("splice:" + stable(strip_upd(x[1]))) if (isinstance(x, tuple) and x and x[0] == "splice") else grammar.render_value(prog, x) for x in items))
+        want_seq = tuple(want_order) + ("splice:load(additional_arguments)",)
+        by_items = seqs == {want_seq}
+        if by_items:
+            order, appends = want_order, ["items"]
         rep.check("C13.R2", "body:Amf0Command:enc", order == want_order and len(appends) == 1,
                   "command body = [name, transaction id, command object] ++ arguments, AMF0 encoded",
                   "command values are assembled as %s (+%d append); specification: name, transaction id, command object, then arguments" % (order, len(appends)), eb.span)
